@@ -526,3 +526,7 @@ mod tests {
             .is_some());
     }
 }
+
+#[cfg(all(test, saito_verif))]
+#[path = "/verif/replay/in_crate/mempool.rs"]
+mod verif_replay;
